@@ -108,6 +108,23 @@ class Ctx:
     def require(self, name: str, minimum: int = 1):
         self.requirements.append((name, minimum))
 
+    def guard(self, fn, *args, witness=None, key="unexpected-exception"):
+        """Run one case; an exception escaping from it is reported as a violation with the
+        witness (on the unchanged tree no case raises; a changed library that starts raising
+        on valid use is a behaviour change worth reporting, not a harness crash)."""
+        try:
+            return fn(*args)
+        except (KeyboardInterrupt, SystemExit):
+            raise
+        except Exception as e:
+            if type(e).__name__ == "_Watchdog":
+                raise
+            import traceback
+
+            tb = traceback.format_exc().strip().splitlines()
+            self.violation(key, "case raised %r" % (e,), {"case": witness, "traceback": tb[-6:]})
+            return None
+
     def forbid(self, name: str):
         if name not in self.forbidden:
             self.forbidden.append(name)
